@@ -144,6 +144,7 @@ static void do_op(const char *line)
     }
     if( !strcmp(op, "dump") && nf == 1 ) {
         printf("%s => ", clean);
+        if( N == 0 ) printf("-");
         for(int q = 0; q < N; q++) printf("%s%s", q ? " " : "", stcode(st(q)));
         printf(" | "); net_print(0); printf("\n"); return;
     }
@@ -306,7 +307,11 @@ static void gen_case(pv_rng_t *g, int k, int maxn, int len)
         if( !progress ) break;
     }
     printf("#xp\n");                                       /* quiescent (unless a monitor is stuck busy): exploration point */
-    for(int k2; (k2 = pick_net(g, 0)) >= 0; ) opf("deliver %ld", k2, 0);   /* phase 2: the control protocol runs alone */
+    {   /* phase 2: the control protocol runs alone; it must stop by itself (bound 7(n-1), see notes) */
+        int k2, budget = 16 * n + 16;
+        while( (k2 = pick_net(g, 0)) >= 0 && budget-- > 0 ) opf("deliver %ld", k2, 0);
+        if( k2 >= 0 ) printf("!viol C11-live control messages keep flowing after %d deliveries in a quiescent run of %d processes\n", 16 * n + 16, n);
+    }
     opf("dump", 0, 0);
     pv_stat("gen_cases", 1); pv_stat("gen_ranks", n);
 }
